@@ -41,6 +41,61 @@ func c18(c *Ctx) {
 		c.R.Note("checker functions", sprintf("%s (parameter #%d)", c.FK(f), pi))
 	}
 
+	// creator wrappers: repository functions that hand one of their own parameters on as the program of a
+	// process-creating call (newCommand(ctx, program, args)); their call sites are the sites to guard
+	wrappers := map[*ssa.Function]int{}
+	for changed := true; changed; {
+		changed = false
+		for _, fn := range c.P.Funcs {
+			if _, done := wrappers[fn]; done || len(fn.Blocks) == 0 {
+				continue
+			}
+			callsCheck := false
+			Calls(fn, func(cc ssa.CallInstruction) {
+				if st := ir.Callee(cc).Static; st != nil {
+					if _, ok := checkers[st]; ok {
+						callsCheck = true
+					}
+				}
+			})
+			if callsCheck {
+				continue
+			}
+			Calls(fn, func(cc ssa.CallInstruction) {
+				call, ok := cc.(*ssa.Call)
+				if !ok {
+					return
+				}
+				argi, isPC := processCreators[ir.CallName(call)]
+				if !isPC {
+					st := ir.Callee(call).Static
+					if st == nil {
+						return
+					}
+					if argi, isPC = wrappers[st]; !isPC {
+						return
+					}
+				}
+				if argi >= len(call.Call.Args) {
+					return
+				}
+				if p, isParam := ir.Resolve(call.Call.Args[argi]).(*ssa.Parameter); isParam && p.Parent() == fn {
+					for i, q := range fn.Params {
+						if q == p {
+							if _, done := wrappers[fn]; !done {
+								wrappers[fn] = i
+								changed = true
+							}
+						}
+					}
+				}
+			})
+		}
+	}
+	for f, pi := range wrappers {
+		c.R.Note("process-creating wrappers", sprintf("%s (program = parameter #%d)", c.FK(f), pi))
+	}
+
 	// ---- R-who ------------------------------------------------------------
 	var execFn *ssa.Function
 	var execCall *ssa.Call
@@ -59,7 +114,19 @@ func c18(c *Ctx) {
 			name := ir.CallName(call)
 			argi, isPC := processCreators[name]
 			if !isPC {
+				if st := ir.Callee(call).Static; st != nil {
+					if wi, isW := wrappers[st]; isW {
+						argi, isPC = wi, true
+					}
+				}
+			}
+			if !isPC || argi >= len(call.Call.Args) {
 				return
+			}
+			if _, inWrapper := wrappers[fn]; inWrapper {
+				if p, isParam := ir.Resolve(call.Call.Args[argi]).(*ssa.Parameter); isParam && p.Parent() == fn {
+					return // judged at the wrapper's call sites
+				}
 			}
 			nSites++
 			prog := call.Call.Args[argi]
@@ -192,6 +259,17 @@ func (c *Ctx) ruleDominate(fn *ssa.Function, execCall *ssa.Call, prog ssa.Value,
 
 func (c *Ctx) rulePredicate(check *ssa.Function, tb *ir.TB) {
 	fk := c.FK(check)
+	// terms are built with parameters of helpers resolved to the arguments of their call sites
+	tbp := ir.NewTB(c.P.IsRepoFunc, c.P.FuncKey)
+	tbp.ParamCallers = c.StaticCallers
+	termOf := func(v ssa.Value, f ir.Fact) *ir.Term {
+		if f.Via != nil {
+			if env := tbp.EnvOfCall(f.Via, nil); env != nil {
+				return tbp.Of(v, env)
+			}
+		}
+		return tbp.Of(v, nil)
+	}
 	// the stat'ed path must be the EvalSymlinks result of the parameter
 	onResolved := func(t *ir.Term) bool {
 		st := t.Find(func(x *ir.Term) bool { return x.Op == "call:os.Stat" || x.Op == "call:os.Lstat" })
@@ -202,21 +280,18 @@ func (c *Ctx) rulePredicate(check *ssa.Function, tb *ir.TB) {
 			return x.Op == "call:path/filepath.EvalSymlinks" && len(x.Args) == 1 && strings.HasPrefix(x.Args[0].Op, "param:")
 		})
 	}
-	statField := func(v ssa.Value, field string) bool {
-		t := tb.Of(v, nil)
+	statField := func(v ssa.Value, field string, f ir.Fact) bool {
+		t := termOf(v, f)
 		return t.Op == "field:"+field && onResolved(t)
 	}
-	modeBit := func(v ssa.Value, bit int64) bool {
+	modeBit := func(v ssa.Value, bit int64, f ir.Fact) bool {
 		b, ok := ir.Resolve(v).(*ssa.BinOp)
 		if !ok || b.Op != token.AND {
 			return false
 		}
 		for _, p := range [][2]ssa.Value{{b.X, b.Y}, {b.Y, b.X}} {
-			if k, ok := ir.ConstInt(p[1]); ok && k == bit {
-				t := tb.Of(p[0], nil)
-				if dbg {
-					println("modeBit term:", t.String())
-				}
+			if k, ok := ir.ConstInt(f.ArgFor(ir.Resolve(p[1]))); ok && k == bit {
+				t := termOf(p[0], f)
 				if strings.HasPrefix(t.Op, "invoke:") && strings.HasSuffix(t.Op, "FileInfo.Mode") && onResolved(t) {
 					return true
 				}
@@ -224,22 +299,76 @@ func (c *Ctx) rulePredicate(check *ssa.Function, tb *ir.TB) {
 		}
 		return false
 	}
-	isZero := func(v ssa.Value) bool { k, ok := ir.ConstInt(v); return ok && k == 0 }
+	isZero := func(v ssa.Value, f ir.Fact) bool { k, ok := ir.ConstInt(f.ArgFor(v)); return ok && k == 0 }
+	eqlZero := func(fs []ir.Fact, match func(x ssa.Value, f ir.Fact) bool) bool {
+		for _, f := range fs {
+			if f.Op != token.EQL || f.X == nil || f.Y == nil {
+				continue
+			}
+			if (match(f.X, f) && isZero(f.Y, f)) || (match(f.Y, f) && isZero(f.X, f)) {
+				return true
+			}
+		}
+		return false
+	}
 	type clause struct {
 		name string
 		est  func(fs []ir.Fact) bool
 	}
 	clauses := []clause{
 		{"owner uid == 0", func(fs []ir.Fact) bool {
-			return ir.HasFact(fs, token.EQL, func(x, y ssa.Value) bool { return statField(x, "Uid") && isZero(y) })
+			return eqlZero(fs, func(x ssa.Value, f ir.Fact) bool { return statField(x, "Uid", f) })
 		}},
 		{"gid == 0 or no group write (mode&0o020 == 0)", func(fs []ir.Fact) bool {
-			return ir.HasFact(fs, token.EQL, func(x, y ssa.Value) bool { return statField(x, "Gid") && isZero(y) }) ||
-				ir.HasFact(fs, token.EQL, func(x, y ssa.Value) bool { return modeBit(x, 0o020) && isZero(y) })
+			return eqlZero(fs, func(x ssa.Value, f ir.Fact) bool { return statField(x, "Gid", f) }) ||
+				eqlZero(fs, func(x ssa.Value, f ir.Fact) bool { return modeBit(x, 0o020, f) })
 		}},
 		{"no other write (mode&0o002 == 0)", func(fs []ir.Fact) bool {
-			return ir.HasFact(fs, token.EQL, func(x, y ssa.Value) bool { return modeBit(x, 0o002) && isZero(y) })
+			return eqlZero(fs, func(x ssa.Value, f ir.Fact) bool { return modeBit(x, 0o002, f) })
 		}},
+	}
+	// establishes: the edge establishes the clause by its own facts, or it is the nil-error edge of a
+	// sub-check (a helper with an error result all of whose nil-error returns crossed such an edge)
+	var subEstablishes func(h *ssa.Function, cl clause, depth int) bool
+	establishes := func(cl clause, b *ssa.BasicBlock, si int, depth int) bool {
+		fs := ir.EdgeFacts(b, si)
+		if cl.est(fs) {
+			return true
+		}
+		for _, f := range fs {
+			if f.Op != token.EQL || !ir.IsNilConst(f.Y) || f.X == nil {
+				continue
+			}
+			var call *ssa.Call
+			switch x := ir.Resolve(f.X).(type) {
+			case *ssa.Call:
+				call = x
+			case *ssa.Extract:
+				call, _ = x.Tuple.(*ssa.Call)
+			}
+			if call == nil {
+				continue
+			}
+			h := ir.Callee(call).Static
+			if h == nil || h == check || len(h.Blocks) == 0 || load_FuncPkgPath(h) != load_FuncPkgPath(check) || errResultIndex(h) < 0 || depth > 2 {
+				continue
+			}
+			if subEstablishes(h, cl, depth+1) {
+				return true
+			}
+		}
+		return false
+	}
+	subEstablishes = func(h *ssa.Function, cl clause, depth int) bool {
+		hei := errResultIndex(h)
+		ok := true
+		for _, rv := range returnsFrom([]ir.Point{{Block: h.Blocks[0]}}, ir.Search{StopEdge: func(b *ssa.BasicBlock, si int) bool { return establishes(cl, b, si, depth) }}) {
+			facts := factsAt(rv.ret.Block(), rv.via)
+			if mayBeNilError(rv.ret.Results[hei], facts) && mayBeNilError(ir.ResultVia(rv.ret, hei, rv.via), facts) {
+				ok = false
+			}
+		}
+		return ok
 	}
 	ei := errResultIndex(check)
 	if ei < 0 {
@@ -247,7 +376,8 @@ func (c *Ctx) rulePredicate(check *ssa.Function, tb *ir.TB) {
 		return
 	}
 	for _, cl := range clauses {
-		stop := func(b *ssa.BasicBlock, si int) bool { return cl.est(ir.EdgeFacts(b, si)) }
+		cl := cl
+		stop := func(b *ssa.BasicBlock, si int) bool { return establishes(cl, b, si, 0) }
 		bad := ""
 		for _, rv := range returnsFrom([]ir.Point{{Block: check.Blocks[0]}}, ir.Search{StopEdge: stop}) {
 			facts := factsAt(rv.ret.Block(), rv.via)
